@@ -155,6 +155,9 @@ type cmdSpec struct {
 	Action   *hookSpec  `json:"action"`
 	After    *hookSpec  `json:"after"`
 	Subs     []*cmdSpec `json:"subs"`
+	// Late (a direct sub-command of the root, in a case with "before"): the sub-command is declared on the application
+	// object only after its first run
+	Late bool `json:"late"`
 }
 
 type versionSpec struct {
@@ -940,6 +943,8 @@ type runCtx struct {
 	// afterRootDecls: called once, right after the root's own declarations (Version declared last)
 	afterRootDecls func()
 	app            *cli.Cli
+	// hasBefore: the case has an earlier life; the root's sub-commands marked late are declared after it
+	hasBefore bool
 }
 
 func firstName(name string) string {
@@ -1014,9 +1019,14 @@ func (r *runCtx) configure(cmd *cli.Cmd, c *cmdSpec, path string) {
 	if f := r.hook(c.After, "F", path, false, cmd); f != nil {
 		cmd.After = f
 	}
+	r.declareSubs(cmd, c, path, false)
+}
+
+// declareSubs declares the sub-commands of c on cmd: those marked late when late is set, the others otherwise
+func (r *runCtx) declareSubs(cmd *cli.Cmd, c *cmdSpec, path string, late bool) {
 	for _, sub := range c.Subs {
 		sub := sub
-		if sub == nil {
+		if sub == nil || (sub.Late && r.hasBefore) != late {
 			continue
 		}
 		subPath := path + "/" + firstName(string(sub.Name))
@@ -1078,6 +1088,7 @@ func runCase(req *request, stderr *bytes.Buffer) *runOut {
 				app.Version(string(req.Version.Name), string(req.Version.Text))
 			}
 		}
+		r.hasBefore = req.Before != nil
 		r.configure(app.Cmd, root, rootName)
 		if root.Policy != nil && root.PolicyLate {
 			app.ErrorHandling = flag.ErrorHandling(*root.Policy)
@@ -1096,6 +1107,7 @@ func runCase(req *request, stderr *bytes.Buffer) *runOut {
 				_ = app.Run(append([]string{argv0}, strs(req.Before.Argv)...))
 			}()
 			app.Spec = final
+			r.declareSubs(app.Cmd, root, rootName, true)
 			r.trace = []B{}
 			r.values = nil
 			r.sbu = nil
